@@ -111,6 +111,18 @@ impl Regex {
         ensures r == re_matches(re_pat(*self).0, re_pat(*self).1, haystack@),
     { unimplemented!() }
 }
+// regex::RegexBuilder (foreign): a builder remembers (pattern, case flag); build compiles exactly that (trusted, listed)
+#[verifier::external_body] pub struct RegexBuilder { x: u8 }
+#[verifier::external_body] pub struct RegexError { x: u8 }
+impl RegexBuilder {
+    pub uninterp spec fn pat(&self) -> Seq<char>;
+    pub uninterp spec fn ic(&self) -> bool;
+    #[verifier::external_body] pub fn new(re: &str) -> (r: RegexBuilder) ensures r.pat() == re@, r.ic() == false { unimplemented!() }
+    #[verifier::external_body] pub fn case_insensitive(&mut self, yes: bool) -> (r: &mut RegexBuilder)
+        ensures final(r).pat() == old(self).pat() && final(r).ic() == yes { unimplemented!() }
+    #[verifier::external_body] pub fn build(&self) -> (r: std::result::Result<Regex, RegexError>)
+        ensures r.is_ok() == compilable(self.pat(), self.ic()), r matches Ok(re) ==> re_pat(re) == (self.pat(), self.ic()) { unimplemented!() }
+}
 //@@ item src/regex.rs :: struct LazyRegex
 
 // R8 outlined expressions: `[a, b].join("")` / `[a, b, c].join("")` (slice join has no Verus spec; assumed: concatenation)
@@ -149,10 +161,8 @@ impl LazyRegex {
     //@| ensures r.original@ == regex@, r.regex@ == leaf_re(regex@), r.ignore_case == ignore_case, r.compiled.is_none(), lr_ok(r),
     //@| outline `["^", regex, "$"].join("")` => `outl_join3("^", regex, "$")`
 
-    // NOT under contract: RegexBuilder chain of the foreign crate + Debug formatting. Assumed (trusted, listed):
+    // the regex is built from the STORED source string with the STORED case flag (RegexBuilder is a shim, see above)
     //@@ fn src/regex.rs :: impl LazyRegex / fn create_regex -> r
-    //@| opt external_body
-    //@| opt stub
     //@| ensures r.is_some() == compilable(self.regex@, self.ignore_case), r matches Some(re) ==> re_pat(*re) == (self.regex@, self.ignore_case),
 
     //@@ fn src/regex.rs :: impl LazyRegex / fn is_match -> r
